@@ -46,7 +46,9 @@ var (
 	letters = []rune("abzABZéßЖ日本ΩøÅ")
 	digits  = []rune("0189٣९") // includes non-ASCII decimal digits
 	conn    = []rune("_‿⁀")    // connector punctuation (Pc)
-	hostile = []string{"", "/", "a/b", "a b", "a.b", "v1.0.0", "..", ".", "a\tb", "a\nb", "a\x00b", "a:b", "a*b", "é/", "label.yaml", "a​b", "a,b", "a+b", "a@b", "a#b", "(a)", "a;b", "a'b", "a\"b", "a\\b", "a|b", "a~b", "a=b", "a%b", "a&b", "a!b", "a?b", "$a", "a{b}", "a[b]", "a<b>", "a^b", "a`b"}
+	hostile = []string{"", "/", "a/b", "a b", "a.b", "v1.0.0", "..", ".", "a\tb", "a\nb", "a\x00b", "a:b", "a*b", "é/", "label.yaml", "a​b", "a,b", "a+b", "a@b", "a#b", "(a)", "a;b", "a'b", "a\"b", "a\\b", "a|b", "a~b", "a=b", "a%b", "a&b", "a!b", "a?b", "$a", "a{b}", "a[b]", "a<b>", "a^b", "a`b",
+		// numbers that are not decimal digits (Unicode categories No, Nl): outside "letters, digits and '-'"
+		"a²", "½", "repo-Ⅷ", "①x", "〇", "x৴", "ⅰ", "a³b", "x¼"}
 	idxVals = []uint64{0, 1, 9, 10, 999, 1000, 1 << 31, 1<<63 - 1, 1 << 63, math.MaxUint64}
 	strPool = []string{"", "a", "hello world", " lead", "trail ", "multi\nline\n", "yes", "no", "null", "~", "123", "1e3", "0x1f", "- a", "a: b", "# x", "'", "\"", "日本語 text", "tab\there", "{a: 1}", "[1,2]", "!!str x", "&a", "*a", "|", ">", "%", "@", "`", "2020-01-02", "2020-01-02T03:04:05Z", "true", "a\n", "\n", "  ", ":", "?", "-", "key: [unclosed", "é", "a #b", "x: y: z"}
 )
